@@ -51,3 +51,58 @@ Example more_format_strings :
   items_of [37;104] = items_of [37;98] /\
   items_of [37;110;37;116] = Val (Some [Space [10]; Space [9]]).
 Proof. vm_compute. repeat split; reflexivity. Qed.
+
+(** * literals of the format need not be ASCII: any well-formed UTF-8 literal is in the class
+    ([it_static (Literal l) r = utf8_valid l]); a literal that starts with a Unicode white-space
+    character (U+00A0 = C2 A0, U+3000 = E3 80 80 ...) counts as white space for a white-space item in
+    front of it, which the reader's [trim_start] would eat into. *)
+(* "%Y年%m月%d日 %H時%M分%S秒" *)
+Definition CJK_FMT : bytes :=
+  [37;89;229;185;180; 37;109;230;156;136; 37;100;230;151;165; 32; 37;72;230;153;130; 37;77;229;136;134; 37;83;231;167;146].
+Definition CJK_ITEMS : list Item :=
+  [num0 N_Year; Literal [229;185;180]; num0 N_Month; Literal [230;156;136]; num0 N_Day; Literal [230;151;165]; Space [32];
+   num0 N_Hour; Literal [230;153;130]; num0 N_Minute; Literal [229;136;134]; num0 N_Second; Literal [231;167;146]].
+
+Example class_utf8_literal_members :
+  (* the item list and the format string of "%Y年%m月%d日 %H時%M分%S秒"; StrftimeItems yields these items *)
+  ndt_static 9 CJK_ITEMS = true /\ items_of CJK_FMT = Val (Some CJK_ITEMS) /\ fmt_ndt_class 9 CJK_FMT = true /\
+  (* "%Y年%m月%d日" as a date format; "%H時%M" follows a space-padded %k-like hour: a non-ASCII byte is not a digit *)
+  fmt_date_class [37;89;229;185;180; 37;109;230;156;136; 37;100;230;151;165] = true /\
+  static_ok [nums N_Hour; Literal [230;153;130]; num N_Minute; Literal [229;136;134]] = true /\
+  (* U+2212 MINUS SIGN, U+00B7 MIDDLE DOT, a four-byte emoji as separators *)
+  static_ok [num0 N_Year; Literal [226;136;146]; num0 N_Month; Literal [194;183]; num0 N_Day; Literal [240;159;149;146]; num0 N_Hour] = true /\
+  (* a literal that starts with NO-BREAK SPACE / IDEOGRAPHIC SPACE: fine after a number or a literal ... *)
+  static_ok [num0 N_Day; Literal [194;160]; num0 N_Month; Literal [227;128;128]; num0 N_Year] = true /\
+  (* ... but not after a white-space item (the reader's trim_start would take it), also through an empty literal *)
+  static_ok2 [num0 N_Day; Space [32]; Literal [194;160]; num0 N_Month] = false /\
+  static_ok2 [num0 N_Day; Space [32]; Literal []; Literal [227;128;128; 65]; num0 N_Month] = false /\
+  static_ok2 [num0 N_Day; Space [32]; Literal [195;160]; num0 N_Month] = true /\
+  (* the flags of an ASCII literal are what they were: digit / white space / dot read off the first byte *)
+  static_ok2 [num N_Day; Literal [49;229;185;180]] = false /\ static_ok2 [num N_Day; Literal [229;185;180;49]] = true /\
+  static_ok2 [Space [32]; Literal [9;65]] = false /\ static_ok2 [IFixed F_Nanosecond; Literal [46]] = false /\
+  (* ill-formed literals (a lone continuation byte, a truncated sequence, a surrogate) stay outside; white
+     space of the FORMAT that is not ASCII is a Space item of StrftimeItems and stays outside *)
+  static_ok2 [Literal [185;180]] = false /\ static_ok2 [Literal [229;185]] = false /\ static_ok2 [Literal [237;160;128]] = false /\
+  items_of [37;100;194;160;37;72] = Val (Some [num0 N_Day; Space [194;160]; num0 N_Hour]) /\
+  fmt_ndt_class 9 [37;70;194;160;37;84] = false.
+Proof. vm_compute. repeat split; reflexivity. Qed.
+
+(** instance: every NaiveDateTime formatted with "%Y年%m月%d日 %H時%M分%S秒" parses back with the same format
+    to the value truncated to the second (a leap second is kept) *)
+Theorem cjk_ndt_parse_from_str : forall y o d t, Proofs.C08Sweeps.repr y o d -> valid_time t ->
+  exists text,
+    Model.Format.delayed_display (Model.Format.fa_of_ndt (Model.DateTime.mk_ndt d t)) (Model.Strftime.sf_new CJK_FMT) = Model.Format.fok text /\
+    ndt_parse_from_str text CJK_FMT =
+      pok (Model.DateTime.mk_ndt d (Model.Time.mk_time (Model.Time.tsecs t) (Proofs.C13TimeForms.leap_part t))).
+Proof.
+  intros y o d t H Hvt.
+  destruct (fmt_ndt_class_roundtrip CJK_FMT 9 ltac:(vm_compute; reflexivity) ltac:(right; right; reflexivity))
+    as (items & Hi & Hall).
+  assert (E : items = CJK_ITEMS).
+  { assert (Hc : items_of CJK_FMT = Val (Some CJK_ITEMS)) by (vm_compute; reflexivity).
+    rewrite Hc in Hi. injection Hi as <-. reflexivity. }
+  subst items. destruct (Hall y o d t H Hvt) as (text & Hw & Hp). exists text. split; [exact Hw|].
+  rewrite Hp. unfold static_time_value.
+  change (fmem Model.Parsed.F_second (sfields CJK_ITEMS)) with true. change (fmem Model.Parsed.F_nanosecond (sfields CJK_ITEMS)) with false.
+  cbv iota. rewrite Z.add_0_r. reflexivity.
+Qed.
